@@ -28,7 +28,8 @@ def plist(l, f=lambda x: x):
 # ------------------------------------------------------------------------------------ builders
 
 def gen_fieldcalls(r, kind):
-    calls = ['ty'] + (['name'] if kind == 'n' else [])
+    # the type-assigning call: `.ty::<T>()` or (compile-time form only) `.compact::<T>()` - same typestate signature
+    calls = [r.choice(['ty', 'ty', 'compact'])] + (['name'] if kind == 'n' else [])
     for _ in range(r.choice([0, 0, 1, 2])):
         calls.append(r.choice(['tn', 'docs']))
     r.shuffle(calls)
@@ -104,9 +105,9 @@ def mutate_bld(r, steps):
         if cands:
             f = r.choice(cands)
             if m == 'drop_ty':
-                f[:] = [c for c in f if c != 'ty']
+                f[:] = [c for c in f if c not in ('ty', 'compact')]
             elif m == 'dup_ty':
-                f.insert(r.randrange(len(f) + 1), 'ty')
+                f.insert(r.randrange(len(f) + 1), r.choice(['ty', 'compact']))
             elif m == 'toggle_name':
                 if 'name' in f:
                     f[:] = [c for c in f if c != 'name']
@@ -118,7 +119,7 @@ def mutate_bld(r, steps):
         fp = r.choice(fps)
         fp[0] = 'u'
         if not fp[1]:
-            fp[1].append(['ty'])
+            fp[1].append([r.choice(['ty', 'compact'])])
     elif m == 'drop_idx':
         v = r.choice(variants)
         v[:] = [c for c in v if c[0] != 'idx']
@@ -136,6 +137,8 @@ def rust_fields(fp, portable):
         for c in f:
             if c == 'ty':
                 body += '.ty(1u32)' if portable else '.ty::<u8>()'
+            elif c == 'compact':
+                body += '.ty(1u32)' if portable else '.compact::<u8>()'
             elif c == 'name':
                 body += '.name("a".to_string())' if portable else '.name("a")'
             elif c == 'tn':
@@ -181,7 +184,7 @@ def rust_bld(steps, portable):
 def proto_fields(fp, portable):
     # docs steps do not exist in the portable rendering (docs_portable is feature gated): drop them from the description too
     def calls(f):
-        return [c for c in f if not (portable and c == 'docs')]
+        return [('ty' if (portable and c == 'compact') else c) for c in f if not (portable and c == 'docs')]
     return fp[0] + ' ' + plist(fp[1], lambda f: plist(calls(f)))
 
 
@@ -289,6 +292,11 @@ impl Tr for Good { type A = u8; type S = u8; }
 #[derive(TypeInfo)]
 pub struct Bad;
 impl Tr for Bad { type A = NoInfo; type S = NoInfo; }
+// a marker the declared `where` clause can require: implemented for the instantiation types only (not blanket), so the
+// derived impl is well-formed only if it repeats the declared predicate
+pub trait Mk {}
+impl Mk for u8 {} impl Mk for u32 {} impl Mk for bool {} impl Mk for String {} impl Mk for NoInfo {} impl Mk for Good {} impl Mk for Bad {}
+impl<X> Mk for Vec<X> {} impl<X> Mk for Option<X> {} impl<X> Mk for Wrapper<X> {}
 '''
 
 
@@ -441,14 +449,22 @@ def gen_gen(r):
     if omit_default:
         inst[1] = T('u', n=8)
     # ---------------- Rust
-    gens = (["'a"] if lifetime else []) + [nm + (': Tr' if with_assoc[k] else '') + (' = u8' if (default_u and k == 1) else '') for k, nm in enumerate(names)] + \
+    # declared predicates: inline or in the declared `where` clause (which the derived impl must repeat in every mode)
+    tr_in_where = [with_assoc[k] and r.random() < 0.5 for k in range(np)]
+    preds = [f'{names[k]}: Tr' for k in range(np) if tr_in_where[k]]
+    for k in range(np):
+        if r.random() < 0.3:
+            preds.append(f'{names[k]}: Mk')
+    if r.random() < 0.1:
+        preds.append('T: Sized')
+    gens = (["'a"] if lifetime else []) + [nm + (': Tr' if (with_assoc[k] and not tr_in_where[k]) else '') + (' = u8' if (default_u and k == 1) else '') for k, nm in enumerate(names)] + \
         (['const N: usize'] if const else [])
     attrs = []
     if any(skipped):
         attrs.append('skip_type_params(' + ', '.join(nm for k, nm in enumerate(names) if skipped[k]) + ')')
     if custom is not None:
         attrs.append('bounds(' + ', '.join(f"{names[k]}: TypeInfo + 'static" for k in custom) + ')')
-    where = ' where T: Sized' if r.random() < 0.2 else ''
+    where = (' where ' + ', '.join(preds)) if preds else ''
 
     def fline(i, f, pub):
         a = ('#[codec(skip)] ' if f[1] else '') + ('#[codec(compact)] ' if f[2] else '')
